@@ -12,6 +12,8 @@
 # WITHOUT WARRANTIES OR CONDITIONS OF ANY KIND, either express or implied.
 # See the License for the specific language governing permissions and
 # limitations under the License.
+import copy
+
 import numpy as np
 
 import graphiq.circuit.ops as ops
@@ -285,6 +287,8 @@ class MonteCarloNoise:
         seq = circ._slim_seq()
         noisy_ops = []
         for op in seq:
+            # work on a copy: the operation objects of the sampled circuit must keep their own noise
+            op = copy.deepcopy(op)
             is_controlled = False
             if isinstance(op, ops.OneQubitGateWrapper):
                 op_type_seq = [type(gate) for gate in op.unwrap()]
